@@ -16,7 +16,8 @@ def run(tier):
     rep = common.Report("C10", tier, "other",
                         "one obligation per (rule, operation, trait configuration, D); distinct = distinct (rule, operation, configuration)")
     wd = common.workdir("own")
-    configs = [(False, False, False), (True, True, True)] if tier == "quick" else \
+    # quick: all-false, all-true and the three single-trait configurations (a swapped trait is only visible where the traits differ)
+    configs = [(False, False, False), (True, True, True), (True, False, False), (False, True, False), (False, False, True)] if tier == "quick" else \
         [(a, b, c) for a in (False, True) for b in (False, True) for c in (False, True)]
     dims = (2,) if tier == "quick" else (1, 2)
     n = 0
